@@ -327,6 +327,7 @@ Section Transfer.
     dead m' = dead m -> pc_alive m' = pc_alive m -> values m' = values m ->
     (st_dropping m = true -> st_dropping m' = true) ->
     length (slots m') = length (slots m) -> length (wslots m') = length (wslots m) ->
+    length (cslots m') = length (cslots m) ->
     (forall x, get m a = Some x -> same_st x (f x)) ->
     (forall o, o <> a \/ get m a = None ->
        (refs m' o + cnt_id o E' = refs m o + cnt_id o E /\
@@ -346,7 +347,7 @@ Section Transfer.
        (exists j', o_wfields x !! j' = Some w) \/ wnomap m w) ->
     SInv K b E' W' m'.
   Proof.
-    intros HI Hh Hd Hal Hv Hsd Hl1 Hl2 Hst Hn Hoa Hloc HE Hpc Hw1 Hw2 Hw3.
+    intros HI Hh Hd Hal Hv Hsd Hl1 Hl2 Hl3 Hst Hn Hoa Hloc HE Hpc Hw1 Hw2 Hw3.
     pose proof (heap_st_alter _ _ _ _ Hh Hst) as HS.
     assert (Hget : forall o, get m' o = if decide (a = o) then f <$> get m o else get m o)
       by (intros; apply get_alter, Hh).
@@ -379,7 +380,7 @@ Section Transfer.
     - intros v o Hvo. rewrite Hv in Hvo. destruct (I8 v o Hvo) as [(x & Hx & Hb & Hvs) Hu]. split.
       + destruct (proj1 HS o x Hx) as (x' & Hx' & Sb & Sv & _). exists x'. repeat split; congruence.
       + intros v'. rewrite Hv. apply Hu.
-    - destruct I9. split; congruence.
+    - destruct I9 as (? & ? & ?). repeat split; congruence.
     - intros i w Hi. destruct (Hw1 i w Hi) as [[i' Hi']|Hw]; eapply wnomap_st; eauto.
     - intros w Hw. destruct (Hw2 w Hw) as [Hw'|Hw']; eapply wnomap_st; eauto.
     - intros p xp' j w Hp Hj. rewrite Hget in Hp. destruct (decide (a = p)) as [->|Hne].
@@ -623,6 +624,7 @@ Section HS.
     - exact Hsd.
     - rewrite Hs. reflexivity.
     - rewrite Hws. reflexivity.
+    - rewrite Hcs. reflexivity.
     - intros y Hy. rewrite (Hf y Hy). repeat split; auto.
     - intros o [Hne|Hn]; [|congruence]. rewrite HR, HW. destruct (Hcnt o Hne) as [-> ->]. auto.
     - intros y Hy. rewrite (Hf y Hy), HR, HW. auto.
@@ -648,6 +650,7 @@ Section HS.
     - rewrite Hsd. auto.
     - rewrite Hs. reflexivity.
     - rewrite Hws. reflexivity.
+    - rewrite Hcs. reflexivity.
     - intros. apply same_st_refl.
     - intros o _. rewrite HR, HW. auto.
     - intros y Hy. rewrite HR, HW, Hsd. split; [apply (sv_obj _ _ _ _ _ HI), Hy | apply (sv_objx _ _ _ _ _ HI _ _ Hy)].
